@@ -28,7 +28,7 @@ IsWild(c) == c \in {42, 63, 126}                      \* * ? ~
 (* cells and keys the property speaks about: numbers and (proper) texts    *)
 (* ---------------------------------------------------------------------- *)
 CellOk(x) ==
-    \/ x.t = "num" /\ SafeNum(x)
+    \/ x.t = "num" /\ (SafeNum(x) \/ x.d = 1)      \* (whole numbers of any size compare without products)
     \/ x.t = "txt" /\ Len(x.v) > 0 /\ TextToNum(x.v).t = "notnum" /\ CaseKnownSeq(x.v)
 
 NoWild(s) == \A i \in 1..Len(s) : ~IsWild(s[i])
@@ -72,7 +72,7 @@ ParseCriterion(s) ==
 \* the criterion denoted by an argument value
 CritOf(x) ==
     CASE x.t = "txt" -> ParseCriterion(x.v)
-      [] x.t = "num" -> Crit("=", x, SafeNum(x))
+      [] x.t = "num" -> Crit("=", x, SafeNum(x) \/ x.d = 1)
       [] OTHER       -> Crit("=", x, FALSE)
 
 \* does the cell satisfy the criterion?  (CellOk(cell) and cr.ok assumed)
